@@ -191,7 +191,7 @@ func (r *rewriter) stmt(s ast.Stmt) ast.Stmt {
 		return &ast.ExprStmt{X: call("vsched", "Send", x.Chan, x.Value)}
 	case *ast.SelectStmt:
 		r.mark()
-		hasDefault := false
+		hasDefault, usesValue := false, false
 		var cases []ast.Expr
 		var clauses []ast.Stmt
 		for _, c := range x.Body.List {
@@ -204,24 +204,52 @@ func (r *rewriter) stmt(s ast.Stmt) ast.Stmt {
 				})
 				continue
 			}
-			es, ok := cc.Comm.(*ast.ExprStmt)
-			if !ok {
-				fatal("%s: select case with assignment or send cannot be rewritten", r.fset.Position(cc.Pos()))
+			var recvCall ast.Expr
+			var bind *ast.AssignStmt // case v := <-ch / case v = <-ch
+			switch cs := cc.Comm.(type) {
+			case *ast.ExprStmt:
+				recvCall = cs.X
+			case *ast.AssignStmt:
+				if len(cs.Lhs) != 1 || len(cs.Rhs) != 1 {
+					fatal("%s: select case receiving two values cannot be rewritten", r.fset.Position(cc.Pos()))
+				}
+				recvCall, bind = cs.Rhs[0], cs
+			default:
+				fatal("%s: select case with a send cannot be rewritten", r.fset.Position(cc.Pos()))
 			}
 			// the walk has already turned <-ch into vsched.Recv(ch)
-			ce, ok := es.X.(*ast.CallExpr)
+			ce, ok := recvCall.(*ast.CallExpr)
 			if !ok || len(ce.Args) != 1 {
 				fatal("%s: unsupported select case", r.fset.Position(cc.Pos()))
 			}
 			idx := len(cases)
-			cases = append(cases, call("vsched", "RecvCase", ce.Args[0]))
+			body := cc.Body
+			if bind != nil {
+				usesValue = true
+				cases = append(cases, call("vsched", "RecvCaseV", ce.Args[0]))
+				as := &ast.AssignStmt{Lhs: bind.Lhs, Tok: bind.Tok, Rhs: []ast.Expr{call("vsched", "As", ce.Args[0], ast.NewIdent("__selv"))}}
+				body = append([]ast.Stmt{as}, body...)
+				if id, ok := bind.Lhs[0].(*ast.Ident); ok && bind.Tok == token.DEFINE && id.Name != "_" {
+					// keep "declared and not used" away when the body ignores the value
+					body = append(body[:1:1], append([]ast.Stmt{&ast.AssignStmt{Lhs: []ast.Expr{ast.NewIdent("_")}, Tok: token.ASSIGN, Rhs: []ast.Expr{ast.NewIdent(id.Name)}}}, body[1:]...)...)
+				}
+			} else {
+				cases = append(cases, call("vsched", "RecvCase", ce.Args[0]))
+			}
 			clauses = append(clauses, &ast.CaseClause{
 				List: []ast.Expr{&ast.BasicLit{Kind: token.INT, Value: strconv.Itoa(idx)}},
-				Body: cc.Body,
+				Body: body,
 			})
 		}
 		args := []ast.Expr{ast.NewIdent(strconv.FormatBool(hasDefault))}
 		args = append(args, cases...)
+		if usesValue {
+			return &ast.SwitchStmt{
+				Init: &ast.AssignStmt{Lhs: []ast.Expr{ast.NewIdent("__selv"), ast.NewIdent("__seli")}, Tok: token.DEFINE, Rhs: []ast.Expr{call("vsched", "SelectV", args...)}},
+				Tag:  ast.NewIdent("__seli"),
+				Body: &ast.BlockStmt{List: clauses},
+			}
+		}
 		return &ast.SwitchStmt{
 			Tag:  call("vsched", "Select", args...),
 			Body: &ast.BlockStmt{List: clauses},
